@@ -1331,6 +1331,10 @@ class Engine(object):
                 args = []
                 for i, v in enumerate(vals[:len(argnodes)]):
                     if i in star:
+                        if isinstance(v, OptV):
+                            # *None raises TypeError: must be excluded on this path
+                            s2 = self.oblige(s2, "safe", node, b_not(v.isnone), label="TypeError-star-None")
+                            v = v.val
                         items = self.static_items(v)
                         if items is None:
                             raise EngineError("*args of symbolic length")
